@@ -315,6 +315,24 @@ func runStream(k *kase) {
 	k.Impl = map[string]any{"finished": true, "results": results, "targets": targets}
 }
 
+// envFailure: some existing (not scripted as missing) target was answered with a lock/lookup error
+func envFailure(k *kase) bool {
+	b, _ := json.Marshal(k.Impl["results"])
+	var rs []struct {
+		ID  string `json:"id"`
+		Err string `json:"err"`
+	}
+	if json.Unmarshal(b, &rs) != nil {
+		return false
+	}
+	for _, r := range rs {
+		if r.Err == "target" && !k.Behs[r.ID].Missing {
+			return true
+		}
+	}
+	return false
+}
+
 func run(k *kase) {
 	k.Chunk = types.SendLargeFileChunkSize
 	kind, msg := hx.Guard(60*time.Second, func() {
@@ -326,10 +344,23 @@ func run(k *kase) {
 				out = append(out, map[string]any{"hex": hex.EncodeToString(m.Chunk), "ids": m.IDs, "dst": m.Dst, "size": m.Size, "mode": m.Mode, "uid": m.UID, "gid": m.GID})
 			}
 			k.Impl = map[string]any{"chunks": out}
-		case "send":
-			runSend(k)
-		case "stream":
-			runStream(k)
+		case "send", "stream":
+			// A lock or lookup failure on a workload that EXISTS is an environment failure (etcd lock timeout
+			// under machine load), not a behaviour of the pipeline: re-run the case, up to 3 times; a case
+			// that only then passes is classed `timing-off` and not judged.
+			for attempt := 0; ; attempt++ {
+				if k.Op == "send" {
+					runSend(k)
+				} else {
+					runStream(k)
+				}
+				if !envFailure(k) || attempt == 3 {
+					if attempt > 0 && !envFailure(k) {
+						k.Impl["timing_off"] = attempt
+					}
+					break
+				}
+			}
 		}
 	})
 	if kind != "" {
